@@ -105,7 +105,8 @@ func initTupleAckData() {
 			{Name: "result", Type: "bytes"},
 			{Name: "message", Type: "string"},
 			{Name: "relayer", Type: "string"},
-			{Name: "feeOption", Type: "uint64"},
+			// the component name is the JSON key ABIDecode goes through: it must match Acknowledgement's json tag
+			{Name: "fee_option", Type: "uint64"},
 		},
 	)
 	if err != nil {
